@@ -240,7 +240,10 @@ IntBoundary(b) ==
 
 CustomNode(e) == EnumNode(e, IF EnumBase(e) = "string" THEN CustomStr ELSE CustomInt)
 RECURSIVE BadEnum(_)
-BadEnum(t) == CASE t.kind = "reference" /\ t.name \in EName -> IF PyOpen(t.name) THEN {} ELSE {CustomNode(t.name)}
+\* (for an integer-valued enumeration also the undeclared number written with a fraction part, 99.0)
+BadEnum(t) == CASE t.kind = "reference" /\ t.name \in EName ->
+                      IF PyOpen(t.name) THEN {}
+                      ELSE {CustomNode(t.name)} \cup (IF EnumBase(t.name) = "string" THEN {} ELSE {JDec("99.0")})
                 [] t.kind = "reference" /\ t.name \in AName /\ t.name # "LSPAny" -> BadEnum(ADef[t.name].type)
                 [] t.kind = "array" -> {JArr(<<b>>) : b \in BadEnum(t.element)}
                 [] t.kind = "map" -> {JObj("key" :> b) : b \in BadEnum(t.value)}
